@@ -38,6 +38,26 @@ pub struct RawObs {
     pub edge_refs: Option<Vec<EdgeT>>,
     pub per_node: Vec<PerNode>,
     pub adj: Option<Vec<(usize, usize, bool)>>,
+    /// every (edge, weight) pair any weight-reporting iterator of the view handed out
+    pub weights: Vec<(WKeyT, u64, &'static str)>,
+    /// outcome of the Visitable protocol check (None = not observed)
+    pub vmap: Option<Result<(), String>>,
+    /// EdgeIndexable: (edge_bound, [(edge key, to_index, key of from_index(to_index))])
+    pub eindex: Option<(usize, Vec<(EKey, usize, EKey)>)>,
+}
+
+/// (edge key, smaller endpoint, larger endpoint): identifies an edge in every view of it
+pub type WKeyT = (EKey, usize, usize);
+pub fn wkey(k: EKey, s: usize, t: usize) -> WKeyT {
+    (k, s.min(t), s.max(t))
+}
+pub trait WVal {
+    fn wval(&self) -> u64;
+}
+impl WVal for u32 {
+    fn wval(&self) -> u64 {
+        *self as u64
+    }
 }
 
 #[derive(Clone, Debug)]
@@ -45,6 +65,7 @@ pub struct Truth {
     pub directed: bool,
     pub nodes: Vec<usize>,
     pub edges: Vec<EdgeT>,
+    pub weights: std::collections::BTreeMap<WKeyT, u64>,
 }
 
 impl Truth {
@@ -53,6 +74,7 @@ impl Truth {
             directed: self.directed,
             nodes: self.nodes.clone(),
             edges: self.edges.iter().map(|&(k, s, t)| (k, t, s)).collect(),
+            weights: self.weights.clone(),
         }
     }
     pub fn node_filtered(&self, keep: &dyn Fn(usize) -> bool) -> Truth {
@@ -60,6 +82,7 @@ impl Truth {
             directed: self.directed,
             nodes: self.nodes.iter().copied().filter(|&n| keep(n)).collect(),
             edges: self.edges.iter().copied().filter(|&(_, s, t)| keep(s) && keep(t)).collect(),
+            weights: self.weights.clone(),
         }
     }
     pub fn edge_filtered(&self, keep: &dyn Fn(EdgeT) -> bool) -> Truth {
@@ -67,6 +90,7 @@ impl Truth {
             directed: self.directed,
             nodes: self.nodes.clone(),
             edges: self.edges.iter().copied().filter(|&e| keep(e)).collect(),
+            weights: self.weights.clone(),
         }
     }
     pub fn symmetrised(&self) -> Truth {
@@ -74,6 +98,7 @@ impl Truth {
             directed: false,
             nodes: self.nodes.clone(),
             edges: self.edges.clone(),
+            weights: self.weights.clone(),
         }
     }
 }
@@ -128,6 +153,98 @@ pub fn x_index<G: NodeIndexable>(g: &G, ids: &[G::NodeId], nk: &dyn Fn(G::NodeId
         .collect();
     (bound, v)
 }
+pub fn x_ew<G: IntoEdgeReferences>(g: G, nk: &dyn Fn(G::NodeId) -> usize, ek: &dyn Fn(G::EdgeId) -> EKey, out: &mut Vec<(WKeyT, u64, &'static str)>)
+where
+    G::EdgeWeight: WVal,
+{
+    for e in g.edge_references() {
+        out.push((wkey(ek(e.id()), nk(e.source()), nk(e.target())), e.weight().wval(), "edge_references"));
+    }
+}
+pub fn x_outw<G: IntoEdges>(g: G, probe: &[G::NodeId], nk: &dyn Fn(G::NodeId) -> usize, ek: &dyn Fn(G::EdgeId) -> EKey, out: &mut Vec<(WKeyT, u64, &'static str)>)
+where
+    G::EdgeWeight: WVal,
+{
+    for &a in probe {
+        for e in g.edges(a) {
+            out.push((wkey(ek(e.id()), nk(e.source()), nk(e.target())), e.weight().wval(), "edges"));
+        }
+    }
+}
+pub fn x_dirw<G: IntoEdgesDirected>(g: G, probe: &[G::NodeId], nk: &dyn Fn(G::NodeId) -> usize, ek: &dyn Fn(G::EdgeId) -> EKey, out: &mut Vec<(WKeyT, u64, &'static str)>)
+where
+    G::EdgeWeight: WVal,
+{
+    for &a in probe {
+        for d in [Direction::Outgoing, Direction::Incoming] {
+            for e in g.edges_directed(a, d) {
+                out.push((wkey(ek(e.id()), nk(e.source()), nk(e.target())), e.weight().wval(), "edges_directed"));
+            }
+        }
+    }
+}
+/// The Visitable / VisitMap protocol on the nodes the view lists: a fresh map has nothing
+/// visited, `visit` reports the first visit only, `unvisit` undoes exactly one node,
+/// `reset_map` clears everything (and re-sizes a foreign map).
+pub fn x_vmap<G: Visitable>(g: &G, ids: &[G::NodeId], nk: &dyn Fn(G::NodeId) -> usize) -> Result<(), String> {
+    let mut m = g.visit_map();
+    for &n in ids {
+        if m.is_visited(&n) {
+            return Err(format!("fresh visit_map() already has node {} visited", nk(n)));
+        }
+    }
+    for &n in ids {
+        if !m.visit(n) {
+            return Err(format!("visit({}) on an unvisited node returned false", nk(n)));
+        }
+        if !m.is_visited(&n) {
+            return Err(format!("is_visited({}) is false right after visit", nk(n)));
+        }
+        if m.visit(n) {
+            return Err(format!("second visit({}) returned true", nk(n)));
+        }
+    }
+    for (i, &n) in ids.iter().enumerate() {
+        if i % 2 == 0 {
+            if !m.unvisit(n) {
+                return Err(format!("unvisit({}) on a visited node returned false", nk(n)));
+            }
+            if m.is_visited(&n) {
+                return Err(format!("is_visited({}) is true after unvisit", nk(n)));
+            }
+            if m.unvisit(n) {
+                return Err(format!("second unvisit({}) returned true", nk(n)));
+            }
+        }
+    }
+    for (i, &n) in ids.iter().enumerate() {
+        if m.is_visited(&n) != (i % 2 == 1) {
+            return Err(format!("after unvisiting every other node, is_visited({}) = {}", nk(n), m.is_visited(&n)));
+        }
+    }
+    g.reset_map(&mut m);
+    for &n in ids {
+        if m.is_visited(&n) {
+            return Err(format!("node {} still visited after reset_map", nk(n)));
+        }
+        if !m.visit(n) {
+            return Err(format!("visit({}) after reset_map returned false", nk(n)));
+        }
+    }
+    Ok(())
+}
+pub fn x_eindex<G: IntoEdgeReferences + EdgeIndexable>(g: G, ek: &dyn Fn(G::EdgeId) -> EKey) -> (usize, Vec<(EKey, usize, EKey)>) {
+    let bound = g.edge_bound();
+    let v = g
+        .edge_references()
+        .map(|e| {
+            let i = EdgeIndexable::to_index(&g, e.id());
+            let back = if i < bound { ek(EdgeIndexable::from_index(&g, i)) } else { u64::MAX };
+            (ek(e.id()), i, back)
+        })
+        .collect();
+    (bound, v)
+}
 pub fn x_ncount<G: NodeCount>(g: &G) -> usize {
     g.node_count()
 }
@@ -171,6 +288,11 @@ macro_rules! view {
     (@feat ncount, $o:ident, $g:expr, $probe:expr, $nk:expr, $ek:expr) => { $o.node_count = Some($crate::engines::visit::x_ncount(&$g)); };
     (@feat ecount, $o:ident, $g:expr, $probe:expr, $nk:expr, $ek:expr) => { $o.edge_count = Some($crate::engines::visit::x_ecount(&$g)); };
     (@feat prop, $o:ident, $g:expr, $probe:expr, $nk:expr, $ek:expr) => { $o.directed = Some($crate::engines::visit::x_prop(&$g)); };
+    (@feat ew, $o:ident, $g:expr, $probe:expr, $nk:expr, $ek:expr) => { $crate::engines::visit::x_ew($g, $nk, $ek, &mut $o.weights); };
+    (@feat outw, $o:ident, $g:expr, $probe:expr, $nk:expr, $ek:expr) => { $crate::engines::visit::x_outw($g, $probe, $nk, $ek, &mut $o.weights); };
+    (@feat dirw, $o:ident, $g:expr, $probe:expr, $nk:expr, $ek:expr) => { $crate::engines::visit::x_dirw($g, $probe, $nk, $ek, &mut $o.weights); };
+    (@feat vmap, $o:ident, $g:expr, $probe:expr, $nk:expr, $ek:expr) => { $o.vmap = Some($crate::engines::visit::x_vmap(&$g, $probe, $nk)); };
+    (@feat eindex, $o:ident, $g:expr, $probe:expr, $nk:expr, $ek:expr) => { $o.eindex = Some($crate::engines::visit::x_eindex($g, $ek)); };
     (@feat adj, $o:ident, $g:expr, $probe:expr, $nk:expr, $ek:expr) => { $o.adj = Some($crate::engines::visit::x_adj(&$g, $probe, $nk)); };
 }
 
@@ -316,6 +438,23 @@ pub fn check_view(view: &str, o: &RawObs, t: &Truth, flavor: Flavor, ground_ids:
             ensure!("is_adjacent", val == exp, "is_adjacent({}, {}) = {} but the view {} an edge {}->{}", a, b, val, if exp { "has" } else { "has no" }, a, b);
         }
     }
+    for (k, w, via) in &o.weights {
+        match t.weights.get(k) {
+            Some(tw) => ensure!("edge_weight", tw == w, "{}: edge {:?} (key, endpoints) carries weight {} but the base graph's edge_references() gives it {}", via, k, w, tw),
+            None => ensure!("edge_weight", t.weights.is_empty(), "{}: edge {:?} (key, endpoints) with weight {} is not an edge of the base graph", via, k, w),
+        }
+    }
+    if let Some(Err(e)) = &o.vmap {
+        ensure!("visit_map", false, "Visitable protocol: {}", e);
+    }
+    if let Some((bound, ix)) = &o.eindex {
+        ensure!("edge_bound", ix.iter().all(|x| x.1 < *bound), "EdgeIndexable::to_index yields {:?} (edge key, index, ..) with edge_bound() = {}", ix.iter().find(|x| x.1 >= *bound), bound);
+        let mut seen = std::collections::BTreeSet::new();
+        for &(k, i, back) in ix {
+            ensure!("edge_to_index_injective", seen.insert(i), "EdgeIndexable::to_index maps two edges to {}", i);
+            ensure!("edge_from_index", back == k, "EdgeIndexable::from_index(to_index(edge {})) gives edge {}", k, back);
+        }
+    }
     let _ = ground_ids;
     Ok(())
 }
@@ -344,10 +483,17 @@ pub fn truth_of(view: &str, o: &RawObs, edge_ids_unique: bool) -> Result<Truth, 
             return Err(("edge_references_dangling", format!("[{}] edge_references() yields {:?} whose endpoint is not in node_identifiers() {:?}", view, e, nodes)));
         }
     }
+    let mut weights = std::collections::BTreeMap::new();
+    for (k, w, via) in &o.weights {
+        if *via == "edge_references" {
+            weights.insert(*k, *w);
+        }
+    }
     Ok(Truth {
         directed: o.directed.unwrap_or(true),
         nodes,
         edges,
+        weights,
     })
 }
 
@@ -376,26 +522,26 @@ macro_rules! visit_battery_directed {
         let ek = $ek;
         let ids: Vec<_> = g.node_identifiers().collect();
         let keys: Vec<usize> = ids.iter().map(|&n| nk(n)).collect();
-        let base = $crate::view!(g; &ids, &nk, &ek; nodes, noderefs, edges, out, dir, index, ncount, ecount, prop $(, $basefeat)*);
+        let base = $crate::view!(g; &ids, &nk, &ek; nodes, noderefs, edges, out, dir, ew, outw, dirw, vmap, index, ncount, ecount, prop $(, $basefeat)*);
         let truth = truth_of("base", &base, true)?;
         check_view("base", &base, &truth, Flavor::Normal, &keys)?;
         // & delegation
         let rr = &g;
-        let v = $crate::view!(rr; &ids, &nk, &ek; nodes, noderefs, edges, out, dir, index, ncount, ecount, prop $(, $basefeat)*);
+        let v = $crate::view!(rr; &ids, &nk, &ek; nodes, noderefs, edges, out, dir, ew, outw, dirw, vmap, index, ncount, ecount, prop $(, $basefeat)*);
         check_view("&G", &v, &truth, Flavor::Normal, &keys)?;
         // Reversed
         let rev = Reversed(g);
-        let v = $crate::view!(rev; &ids, &nk, &ek; nodes, noderefs, edges, out, dir, index, ncount, ecount, prop $(, $basefeat)*);
+        let v = $crate::view!(rev; &ids, &nk, &ek; nodes, noderefs, edges, out, dir, ew, outw, dirw, vmap, index, ncount, ecount, prop $(, $basefeat)*);
         let t_rev = truth.reversed();
         check_view("Reversed", &v, &t_rev, Flavor::Normal, &keys)?;
         // Reversed(Reversed)
         let rev2 = Reversed(Reversed(g));
-        let v = $crate::view!(rev2; &ids, &nk, &ek; nodes, noderefs, edges, out, dir, index, ncount, ecount, prop);
+        let v = $crate::view!(rev2; &ids, &nk, &ek; nodes, noderefs, edges, out, dir, ew, outw, dirw, vmap, index, ncount, ecount, prop);
         check_view("Reversed(Reversed)", &v, &truth, Flavor::Normal, &keys)?;
         // UndirectedAdaptor over a directed base
         if truth.directed {
             let und = UndirectedAdaptor(g);
-            let v = $crate::view!(und; &ids, &nk, &ek; nodes, noderefs, edges, out, index, ncount, prop);
+            let v = $crate::view!(und; &ids, &nk, &ek; nodes, noderefs, edges, out, outw, vmap, index, ncount, prop);
             let mut t_und = truth.symmetrised();
             t_und.directed = false;
             // edge_references is delegated to the base (orientation as stored): compare as stored
@@ -408,73 +554,175 @@ macro_rules! visit_battery_directed {
                 if a != b { return Err(("edge_references", format!("[UndirectedAdaptor] edge_references() = {:?}, base has {:?}", er, truth.edges))); }
             }
             let und_rev = UndirectedAdaptor(Reversed(g));
-            let v = $crate::view!(und_rev; &ids, &nk, &ek; nodes, out, index, ncount, prop);
+            let v = $crate::view!(und_rev; &ids, &nk, &ek; nodes, out, outw, vmap, index, ncount, prop);
             check_view("UndirectedAdaptor(Reversed)", &v, &t_und, Flavor::Symmetrised, &keys)?;
         }
         // NodeFiltered
         let s1 = mix(seed, 1);
         let nf = NodeFiltered::from_fn(g, |n| node_keep(s1, nk(n)));
         let nfr = &nf;
-        let v = $crate::view!(nfr; &ids, &nk, &ek; nodes, noderefs, edges, out, dir, index, prop);
+        let v = $crate::view!(nfr; &ids, &nk, &ek; nodes, noderefs, edges, out, dir, ew, outw, dirw, vmap, index, prop);
         let t_nf = truth.node_filtered(&|k| node_keep(s1, k));
         check_view("NodeFiltered", &v, &t_nf, Flavor::Normal, &keys)?;
         // EdgeFiltered
         let s2 = mix(seed, 2);
         let ef = EdgeFiltered::from_fn(g, |e| edge_keep(s2, ek(e.id())));
         let efr = &ef;
-        let v = $crate::view!(efr; &ids, &nk, &ek; nodes, noderefs, edges, out, dir, index, ncount, prop);
+        let v = $crate::view!(efr; &ids, &nk, &ek; nodes, noderefs, edges, out, dir, ew, outw, dirw, vmap, index, ncount, prop);
         let t_ef = truth.edge_filtered(&|e| edge_keep(s2, e.0));
         check_view("EdgeFiltered", &v, &t_ef, Flavor::Normal, &keys)?;
         // depth 2
         let nf_rev = NodeFiltered::from_fn(Reversed(g), |n| node_keep(s1, nk(n)));
         let r = &nf_rev;
-        let v = $crate::view!(r; &ids, &nk, &ek; nodes, noderefs, edges, out, dir, index, prop);
+        let v = $crate::view!(r; &ids, &nk, &ek; nodes, noderefs, edges, out, dir, ew, outw, dirw, vmap, index, prop);
         check_view("NodeFiltered(Reversed)", &v, &t_nf.reversed(), Flavor::Normal, &keys)?;
         let rev_nf = Reversed(&nf);
-        let v = $crate::view!(rev_nf; &ids, &nk, &ek; nodes, noderefs, edges, out, dir, index, prop);
+        let v = $crate::view!(rev_nf; &ids, &nk, &ek; nodes, noderefs, edges, out, dir, ew, outw, dirw, vmap, index, prop);
         check_view("Reversed(NodeFiltered)", &v, &t_nf.reversed(), Flavor::Normal, &keys)?;
         let ef_rev = EdgeFiltered::from_fn(Reversed(g), |e| edge_keep(s2, ek(e.id())));
         let r = &ef_rev;
-        let v = $crate::view!(r; &ids, &nk, &ek; nodes, noderefs, edges, out, dir, index, ncount, prop);
+        let v = $crate::view!(r; &ids, &nk, &ek; nodes, noderefs, edges, out, dir, ew, outw, dirw, vmap, index, ncount, prop);
         check_view("EdgeFiltered(Reversed)", &v, &t_ef.reversed(), Flavor::Normal, &keys)?;
         let rev_ef = Reversed(&ef);
-        let v = $crate::view!(rev_ef; &ids, &nk, &ek; nodes, noderefs, edges, out, dir, index, ncount, prop);
+        let v = $crate::view!(rev_ef; &ids, &nk, &ek; nodes, noderefs, edges, out, dir, ew, outw, dirw, vmap, index, ncount, prop);
         check_view("Reversed(EdgeFiltered)", &v, &t_ef.reversed(), Flavor::Normal, &keys)?;
         let s3 = mix(seed, 3);
         let nf_nf = NodeFiltered::from_fn(&nf, |n| node_keep(s3, nk(n)));
         let r = &nf_nf;
-        let v = $crate::view!(r; &ids, &nk, &ek; nodes, noderefs, edges, out, dir, index, prop);
+        let v = $crate::view!(r; &ids, &nk, &ek; nodes, noderefs, edges, out, dir, ew, outw, dirw, vmap, index, prop);
         let t_nfnf = t_nf.node_filtered(&|k| node_keep(s3, k));
         check_view("NodeFiltered(NodeFiltered)", &v, &t_nfnf, Flavor::Normal, &keys)?;
         let ef_nf = EdgeFiltered::from_fn(&nf, |e| edge_keep(s2, ek(e.id())));
         let r = &ef_nf;
-        let v = $crate::view!(r; &ids, &nk, &ek; nodes, noderefs, edges, out, dir, index, prop);
+        let v = $crate::view!(r; &ids, &nk, &ek; nodes, noderefs, edges, out, dir, ew, outw, dirw, vmap, index, prop);
         let t_efnf = t_nf.edge_filtered(&|e| edge_keep(s2, e.0));
         check_view("EdgeFiltered(NodeFiltered)", &v, &t_efnf, Flavor::Normal, &keys)?;
         let nf_ef = NodeFiltered::from_fn(&ef, |n| node_keep(s1, nk(n)));
         let r = &nf_ef;
-        let v = $crate::view!(r; &ids, &nk, &ek; nodes, noderefs, edges, out, dir, index, prop);
+        let v = $crate::view!(r; &ids, &nk, &ek; nodes, noderefs, edges, out, dir, ew, outw, dirw, vmap, index, prop);
         let t_nfef = t_ef.node_filtered(&|k| node_keep(s1, k));
         check_view("NodeFiltered(EdgeFiltered)", &v, &t_nfef, Flavor::Normal, &keys)?;
         let ef_ef = EdgeFiltered::from_fn(&ef, |e| edge_keep(s3, ek(e.id())));
         let r = &ef_ef;
-        let v = $crate::view!(r; &ids, &nk, &ek; nodes, noderefs, edges, out, dir, index, ncount, prop);
+        let v = $crate::view!(r; &ids, &nk, &ek; nodes, noderefs, edges, out, dir, ew, outw, dirw, vmap, index, ncount, prop);
         let t_efef = t_ef.edge_filtered(&|e| edge_keep(s3, e.0));
         check_view("EdgeFiltered(EdgeFiltered)", &v, &t_efef, Flavor::Normal, &keys)?;
         if truth.directed {
             let und_nf = UndirectedAdaptor(&nf);
-            let v = $crate::view!(und_nf; &ids, &nk, &ek; nodes, out, index, prop);
+            let v = $crate::view!(und_nf; &ids, &nk, &ek; nodes, out, outw, vmap, index, prop);
             let mut t = t_nf.symmetrised();
             t.directed = false;
             check_view("UndirectedAdaptor(NodeFiltered)", &v, &t, Flavor::Symmetrised, &keys)?;
             let und_ef = UndirectedAdaptor(&ef);
-            let v = $crate::view!(und_ef; &ids, &nk, &ek; nodes, out, index, ncount, prop);
+            let v = $crate::view!(und_ef; &ids, &nk, &ek; nodes, out, outw, vmap, index, ncount, prop);
             let mut t = t_ef.symmetrised();
             t.directed = false;
             check_view("UndirectedAdaptor(EdgeFiltered)", &v, &t, Flavor::Symmetrised, &keys)?;
         }
         Ok::<Truth, VErr>(truth)
     }};
+}
+
+/// Things outside the trait-by-trait comparison: the set-based `FilterNode` implementations
+/// (hashbrown `HashSet`, `FixedBitSet`, and references to them) must cut out the same
+/// node-induced graph as the closure with the same membership, `ReversedEdgeReference` must
+/// give its wrapped reference back, and `NodeFiltered`'s `DataMap` must hide exactly the
+/// weights of the excluded nodes.
+#[macro_export]
+macro_rules! visit_battery_extras {
+    ($g:expr, $seed:expr, $nk:expr, $ek:expr, [$($feat:ident),*], bitset = $bitset:tt, datamap = $datamap:tt, reversed = $reversed:tt) => {{
+        use petgraph::visit::*;
+        use $crate::engines::visit::*;
+        let g = $g;
+        let seed: u64 = $seed;
+        let nk = $nk;
+        let ek = $ek;
+        let ids: Vec<_> = g.node_identifiers().collect();
+        let keys: Vec<usize> = ids.iter().map(|&n| nk(n)).collect();
+        let base = $crate::view!(g; &ids, &nk, &ek; nodes, edges, ew, prop);
+        let truth = truth_of("base", &base, false)?;
+        let s1 = mix(seed, 11);
+        let t_nf = truth.node_filtered(&|k| node_keep(s1, k));
+        let mut hs = hashbrown::HashSet::new();
+        for &n in &ids {
+            if node_keep(s1, nk(n)) {
+                hs.insert(n);
+            }
+        }
+        {
+            let nf = NodeFiltered(g, &hs);
+            let r = &nf;
+            let v = $crate::view!(r; &ids, &nk, &ek; nodes, noderefs, edges, out, ew, outw, vmap, index, prop $(, $feat)*);
+            check_view("NodeFiltered<&HashSet>", &v, &t_nf, Flavor::Normal, &keys)?;
+        }
+        {
+            let nf = NodeFiltered(g, hs.clone());
+            let r = &nf;
+            let v = $crate::view!(r; &ids, &nk, &ek; nodes, noderefs, edges, out, ew, outw, vmap, index, prop $(, $feat)*);
+            check_view("NodeFiltered<HashSet>", &v, &t_nf, Flavor::Normal, &keys)?;
+        }
+        $crate::visit_battery_extras!(@bitset $bitset, g, ids, keys, nk, ek, s1, t_nf, [$($feat),*]);
+        $crate::visit_battery_extras!(@datamap $datamap, g, ids, nk, ek, s1);
+        $crate::visit_battery_extras!(@reversed $reversed, g, nk, ek);
+        Ok::<(), VErr>(())
+    }};
+    (@bitset true, $g:ident, $ids:ident, $keys:ident, $nk:ident, $ek:ident, $s1:ident, $t_nf:ident, [$($feat:ident),*]) => {
+        let mut bs = fixedbitset::FixedBitSet::with_capacity($keys.iter().copied().max().map(|m| m + 1).unwrap_or(0));
+        for &k in &$keys {
+            if node_keep($s1, k) {
+                bs.insert(k);
+            }
+        }
+        {
+            let nf = NodeFiltered($g, &bs);
+            let r = &nf;
+            let v = $crate::view!(r; &$ids, &$nk, &$ek; nodes, noderefs, edges, out, ew, outw, vmap, index, prop $(, $feat)*);
+            check_view("NodeFiltered<&FixedBitSet>", &v, &$t_nf, Flavor::Normal, &$keys)?;
+        }
+        {
+            let nf = NodeFiltered($g, bs.clone());
+            let r = &nf;
+            let v = $crate::view!(r; &$ids, &$nk, &$ek; nodes, noderefs, edges, out, ew, outw, vmap, index, prop $(, $feat)*);
+            check_view("NodeFiltered<FixedBitSet>", &v, &$t_nf, Flavor::Normal, &$keys)?;
+        }
+    };
+    (@bitset false, $g:ident, $ids:ident, $keys:ident, $nk:ident, $ek:ident, $s1:ident, $t_nf:ident, [$($feat:ident),*]) => {};
+    (@datamap true, $g:ident, $ids:ident, $nk:ident, $ek:ident, $s1:ident) => {
+        {
+            use petgraph::data::DataMap;
+            let nf = NodeFiltered::from_fn($g, |n| node_keep($s1, $nk(n)));
+            for &n in &$ids {
+                let through = DataMap::node_weight(&nf, n);
+                let direct = DataMap::node_weight(&$g, n);
+                let exp = if node_keep($s1, $nk(n)) { direct } else { None };
+                if through != exp {
+                    return Err(("node_weight", format!("[NodeFiltered] DataMap::node_weight({}) = {:?}, expected {:?} (node {})", $nk(n), through, exp, if node_keep($s1, $nk(n)) { "included" } else { "excluded" })));
+                }
+            }
+            for e in $g.edge_references() {
+                let through = DataMap::edge_weight(&nf, e.id());
+                let direct = DataMap::edge_weight(&$g, e.id());
+                if through != direct || direct != Some(e.weight()) {
+                    return Err(("edge_weight", format!("[NodeFiltered] DataMap::edge_weight(edge {}) = {:?}, the graph says {:?}, its edge reference {:?}", $ek(e.id()), through, direct, e.weight())));
+                }
+            }
+        }
+    };
+    (@datamap false, $g:ident, $ids:ident, $nk:ident, $ek:ident, $s1:ident) => {};
+    (@reversed true, $g:ident, $nk:ident, $ek:ident) => {
+        for e in Reversed($g).edge_references() {
+            let desc = |what: &str, s: usize, t: usize, k: u64| format!("[Reversed] {} of the reversed reference {}->{} (edge {}) is {}->{} (edge {})", what, $nk(e.source()), $nk(e.target()), $ek(e.id()), s, t, k);
+            let u = e.as_unreversed();
+            if $nk(u.source()) != $nk(e.target()) || $nk(u.target()) != $nk(e.source()) || $ek(u.id()) != $ek(e.id()) || u.weight() != e.weight() {
+                return Err(("reversed_edge_ref", desc("as_unreversed()", $nk(u.source()), $nk(u.target()), $ek(u.id()))));
+            }
+            let u = e.into_unreversed();
+            if $nk(u.source()) != $nk(e.target()) || $nk(u.target()) != $nk(e.source()) || $ek(u.id()) != $ek(e.id()) {
+                return Err(("reversed_edge_ref", desc("into_unreversed()", $nk(u.source()), $nk(u.target()), $ek(u.id()))));
+            }
+        }
+    };
+    (@reversed false, $g:ident, $nk:ident, $ek:ident) => {};
 }
 
 use crate::core::hasher::SimBuildHasher;
@@ -486,14 +734,16 @@ use petgraph::EdgeType;
 pub fn check_graph<Ty: EdgeType, Ix: IndexType>(g: &Graph<u32, u32, Ty, Ix>, seed: u64) -> Result<(), VErr> {
     let nk = |n: petgraph::graph::NodeIndex<Ix>| n.index();
     let ek = |e: petgraph::graph::EdgeIndex<Ix>| e.index() as u64;
-    let _t = visit_battery_directed!(g, seed, nk, ek, [adj, compact], compact = true)?;
+    let _t = visit_battery_directed!(g, seed, nk, ek, [adj, compact, eindex], compact = true)?;
+    crate::visit_battery_extras!(g, seed, nk, ek, [dir, dirw], bitset = true, datamap = true, reversed = true)?;
     Ok(())
 }
 
 pub fn check_stable<Ty: EdgeType, Ix: IndexType>(g: &StableGraph<u32, u32, Ty, Ix>, seed: u64) -> Result<(), VErr> {
     let nk = |n: petgraph::graph::NodeIndex<Ix>| n.index();
     let ek = |e: petgraph::graph::EdgeIndex<Ix>| e.index() as u64;
-    let _t = visit_battery_directed!(g, seed, nk, ek, [adj], compact = false)?;
+    let _t = visit_battery_directed!(g, seed, nk, ek, [adj, eindex], compact = false)?;
+    crate::visit_battery_extras!(g, seed, nk, ek, [dir, dirw], bitset = true, datamap = true, reversed = true)?;
     Ok(())
 }
 
@@ -504,7 +754,8 @@ pub fn check_graphmap<Ty: EdgeType>(g: &GraphMap<i32, u32, Ty, SimBuildHasher>, 
         let (a, b) = if directed || e.0 <= e.1 { e } else { (e.1, e.0) };
         ((a as u32 as u64) << 32) | (b as u32 as u64)
     };
-    let _t = visit_battery_directed!(g, seed, nk, ek, [adj, compact], compact = true)?;
+    let _t = visit_battery_directed!(g, seed, nk, ek, [adj, compact, eindex], compact = true)?;
+    crate::visit_battery_extras!(g, seed, nk, ek, [dir, dirw], bitset = false, datamap = false, reversed = true)?;
     Ok(())
 }
 
@@ -515,18 +766,18 @@ pub fn check_frozen_graph<Ty: EdgeType, Ix: IndexType>(g: &mut Graph<u32, u32, T
     let ids: Vec<_> = g.node_indices().collect();
     let keys: Vec<usize> = ids.iter().map(|&n| nk(n)).collect();
     let gr = &*g;
-    let base = crate::view!(gr; &ids, &nk, &ek; nodes, edges, prop);
+    let base = crate::view!(gr; &ids, &nk, &ek; nodes, edges, ew, prop);
     let truth = truth_of("base", &base, true)?;
     {
         // Into* traits are delegated for a Frozen wrapping a graph *reference*
         let mut r = &*g;
         let fr = petgraph::graph::Frozen::new(&mut r);
         let f = &fr;
-        let v = crate::view!(f; &ids, &nk, &ek; nodes, noderefs, edges, out, dir);
+        let v = crate::view!(f; &ids, &nk, &ek; nodes, noderefs, edges, out, dir, ew, outw, dirw);
         check_view("Frozen(&G)", &v, &truth, Flavor::Normal, &keys)?;
     }
     let fr = petgraph::graph::Frozen::new(g);
-    let v = crate::view!(fr; &ids, &nk, &ek; index, compact, ncount, ecount, prop, adj);
+    let v = crate::view!(fr; &ids, &nk, &ek; index, compact, ncount, ecount, prop, adj, vmap);
     check_view("Frozen", &v, &truth, Flavor::Normal, &keys)
 }
 
@@ -536,17 +787,17 @@ pub fn check_frozen_stable<Ty: EdgeType, Ix: IndexType>(g: &mut StableGraph<u32,
     let ids: Vec<_> = g.node_indices().collect();
     let keys: Vec<usize> = ids.iter().map(|&n| nk(n)).collect();
     let gr = &*g;
-    let base = crate::view!(gr; &ids, &nk, &ek; nodes, edges, prop);
+    let base = crate::view!(gr; &ids, &nk, &ek; nodes, edges, ew, prop);
     let truth = truth_of("base", &base, true)?;
     {
         let mut r = &*g;
         let fr = petgraph::graph::Frozen::new(&mut r);
         let f = &fr;
-        let v = crate::view!(f; &ids, &nk, &ek; nodes, noderefs, edges, out, dir);
+        let v = crate::view!(f; &ids, &nk, &ek; nodes, noderefs, edges, out, dir, ew, outw, dirw);
         check_view("Frozen(&G)", &v, &truth, Flavor::Normal, &keys)?;
     }
     let fr = petgraph::graph::Frozen::new(g);
-    let v = crate::view!(fr; &ids, &nk, &ek; index, ncount, ecount, prop, adj);
+    let v = crate::view!(fr; &ids, &nk, &ek; index, ncount, ecount, prop, adj, vmap);
     check_view("Frozen", &v, &truth, Flavor::Normal, &keys)
 }
 
@@ -563,36 +814,36 @@ macro_rules! visit_battery_basic {
         let ek = $ek;
         let ids: Vec<_> = g.node_identifiers().collect();
         let keys: Vec<usize> = ids.iter().map(|&n| nk(n)).collect();
-        let base = $crate::view!(g; &ids, &nk, &ek; nodes, noderefs, edges, out, index, ncount, prop $(, $basefeat)*);
+        let base = $crate::view!(g; &ids, &nk, &ek; nodes, noderefs, edges, out, ew, outw, vmap, index, ncount, prop $(, $basefeat)*);
         let truth = truth_of("base", &base, $uniq)?;
         check_view("base", &base, &truth, Flavor::Normal, &keys)?;
         let rr = &g;
-        let v = $crate::view!(rr; &ids, &nk, &ek; nodes, noderefs, edges, out, index, ncount, prop $(, $basefeat)*);
+        let v = $crate::view!(rr; &ids, &nk, &ek; nodes, noderefs, edges, out, ew, outw, vmap, index, ncount, prop $(, $basefeat)*);
         check_view("&G", &v, &truth, Flavor::Normal, &keys)?;
         let s1 = mix(seed, 1);
         let nf = NodeFiltered::from_fn(g, |n| node_keep(s1, nk(n)));
         let nfr = &nf;
-        let v = $crate::view!(nfr; &ids, &nk, &ek; nodes, noderefs, edges, out, index, prop);
+        let v = $crate::view!(nfr; &ids, &nk, &ek; nodes, noderefs, edges, out, ew, outw, vmap, index, prop);
         let t_nf = truth.node_filtered(&|k| node_keep(s1, k));
         check_view("NodeFiltered", &v, &t_nf, Flavor::Normal, &keys)?;
         let s2 = mix(seed, 2);
         let ef = EdgeFiltered::from_fn(g, |e| edge_keep(s2, ek(e.id())));
         let efr = &ef;
-        let v = $crate::view!(efr; &ids, &nk, &ek; nodes, noderefs, edges, out, index, ncount, prop);
+        let v = $crate::view!(efr; &ids, &nk, &ek; nodes, noderefs, edges, out, ew, outw, vmap, index, ncount, prop);
         let t_ef = truth.edge_filtered(&|e| edge_keep(s2, e.0));
         check_view("EdgeFiltered", &v, &t_ef, Flavor::Normal, &keys)?;
         let s3 = mix(seed, 3);
         let nf_nf = NodeFiltered::from_fn(&nf, |n| node_keep(s3, nk(n)));
         let r = &nf_nf;
-        let v = $crate::view!(r; &ids, &nk, &ek; nodes, noderefs, edges, out, index, prop);
+        let v = $crate::view!(r; &ids, &nk, &ek; nodes, noderefs, edges, out, ew, outw, vmap, index, prop);
         check_view("NodeFiltered(NodeFiltered)", &v, &t_nf.node_filtered(&|k| node_keep(s3, k)), Flavor::Normal, &keys)?;
         let ef_nf = EdgeFiltered::from_fn(&nf, |e| edge_keep(s2, ek(e.id())));
         let r = &ef_nf;
-        let v = $crate::view!(r; &ids, &nk, &ek; nodes, noderefs, edges, out, index, prop);
+        let v = $crate::view!(r; &ids, &nk, &ek; nodes, noderefs, edges, out, ew, outw, vmap, index, prop);
         check_view("EdgeFiltered(NodeFiltered)", &v, &t_nf.edge_filtered(&|e| edge_keep(s2, e.0)), Flavor::Normal, &keys)?;
         let nf_ef = NodeFiltered::from_fn(&ef, |n| node_keep(s1, nk(n)));
         let r = &nf_ef;
-        let v = $crate::view!(r; &ids, &nk, &ek; nodes, noderefs, edges, out, index, prop);
+        let v = $crate::view!(r; &ids, &nk, &ek; nodes, noderefs, edges, out, ew, outw, vmap, index, prop);
         check_view("NodeFiltered(EdgeFiltered)", &v, &t_ef.node_filtered(&|k| node_keep(s1, k)), Flavor::Normal, &keys)?;
         Ok::<Truth, VErr>(truth)
     }};
@@ -605,6 +856,7 @@ pub fn check_matrix_directed<Null: Nullable<Wrapped = u32>, Ix: IndexType>(g: &M
     let nk = |n: petgraph::matrix_graph::NodeIndex<Ix>| n.index();
     let ek = |e: (petgraph::matrix_graph::NodeIndex<Ix>, petgraph::matrix_graph::NodeIndex<Ix>)| ((e.0.index() as u64) << 32) | e.1.index() as u64;
     let _t = visit_battery_directed!(g, seed, nk, ek, [adj], compact = false)?;
+    crate::visit_battery_extras!(g, seed, nk, ek, [dir, dirw], bitset = true, datamap = false, reversed = true)?;
     Ok(())
 }
 
@@ -615,6 +867,7 @@ pub fn check_matrix_undirected<Null: Nullable<Wrapped = u32>, Ix: IndexType>(g: 
         ((a as u64) << 32) | b as u64
     };
     let _t = visit_battery_basic!(g, seed, nk, ek, [ecount, adj], unique_edge_ids = true)?;
+    crate::visit_battery_extras!(g, seed, nk, ek, [], bitset = true, datamap = false, reversed = false)?;
     Ok(())
 }
 
@@ -628,6 +881,7 @@ impl<Ix: IndexType> CsrVisit<Ix> for Directed {
         let nk = |n: Ix| n.index();
         let ek = |e: usize| e as u64;
         let _t = visit_battery_basic!(g, seed, nk, ek, [ecount, compact, adj], unique_edge_ids = true)?;
+        crate::visit_battery_extras!(g, seed, nk, ek, [], bitset = true, datamap = false, reversed = false)?;
         Ok(())
     }
 }
@@ -639,6 +893,7 @@ impl<Ix: IndexType> CsrVisit<Ix> for Undirected {
         // (Csr is a simple graph, so endpoints identify an edge).
         let ek = |_e: usize| 0u64;
         let _t = visit_battery_basic!(g, seed, nk, ek, [ecount, compact, adj], unique_edge_ids = false)?;
+        crate::visit_battery_extras!(g, seed, nk, ek, [], bitset = true, datamap = false, reversed = false)?;
         Ok(())
     }
 }
@@ -647,6 +902,7 @@ pub fn check_list<Ix: IndexType>(g: &petgraph::adj::List<u32, Ix>, seed: u64) ->
     let nk = |n: Ix| n.index();
     let ek = |e: petgraph::adj::EdgeIndex<Ix>| crate::core::fnv(format!("{:?}", e).as_bytes());
     let _t = visit_battery_basic!(g, seed, nk, ek, [ecount, compact, adj], unique_edge_ids = true)?;
+    crate::visit_battery_extras!(g, seed, nk, ek, [], bitset = true, datamap = false, reversed = false)?;
     Ok(())
 }
 
@@ -657,6 +913,6 @@ pub fn check_graphmap_u32<Ty: EdgeType>(g: &GraphMap<u32, u32, Ty, SimBuildHashe
         let (a, b) = if directed || e.0 <= e.1 { e } else { (e.1, e.0) };
         ((a as u64) << 32) | (b as u64)
     };
-    let _t = visit_battery_directed!(g, seed, nk, ek, [adj, compact], compact = true)?;
+    let _t = visit_battery_directed!(g, seed, nk, ek, [adj, compact, eindex], compact = true)?;
     Ok(())
 }
